@@ -384,11 +384,13 @@ func (x *Exec) havocMods(st *State, ms *ModSet) {
 		x.c.havocAll(st)
 		if ms.Writes {
 			x.c.havocWfault(st)
+			x.c.havocBuflen(st)
 		}
 		return
 	}
 	if ms.Writes {
 		x.c.havocWfault(st)
+		x.c.havocBuflen(st)
 	}
 	if ms.Reads {
 		// the callee may have read input: the ghost tape cursor moves forward
@@ -657,17 +659,32 @@ func (x *Exec) invoke(st *State, cc *ssa.CallCommon, recv Val, args []Val, pos t
 		c.assume(and(sx("<=", "0", n), sx("<=", n, sLen(p.S))))
 		c.assume(implies(sx("<", n, sLen(p.S)), not(eq(errv, "I_nil"))))
 		c.havocRegion(st, "$alloc")
-		// ghost output tape: the n accepted bytes are the next n bytes of the output
+		// ghost output tape: it records the bytes accepted by the observed
+		// writer (obsConst).  A write to that writer appends its n accepted
+		// bytes; a write to a standard-library leaf writer (bytes.Buffer,
+		// strings.Builder) other than the observed one leaves the tape alone;
+		// any other writer may forward to the observed one: the tape grows by
+		// an unknown amount.
 		{
 			c.declareFun("gotape", []string{"Int"}, c.intSort(8))
 			r8, _ := c.elemRegion(types.Typ[types.Uint8])
 			arr := sx("select", c.region(st, r8), sRef(p.S))
 			opos := c.region(st, "$opos")
+			isObs := c.def("isobs", "Bool", eq(recv.S, c.obsConst()))
+			leaf := c.def("leaf", "Bool", c.leafWriter(recv.S))
+			fwd := c.freshSort("opos", "Int") // after forwarding by an unknown writer
+			c.assume(and(sx("<=", opos, fwd), sx("<=", fwd, tposMax)))
+			np := c.def("opos", "Int", ite(isObs, sx("+", opos, n), ite(leaf, opos, fwd)))
 			// (guarded by the path: two sibling paths may write different bytes at the same position)
-			c.assumeOnPath(fmt.Sprintf("(forall ((j Int)) (! (=> (and (<= %s j) (< j (+ %s %s))) (= (gotape j) (select %s (+ %s (- j %s))))) :pattern ((gotape j))))", opos, opos, n, arr, sOff(p.S), opos))
-			st.cells["$opos"] = Val{S: c.def("opos", "Int", sx("+", opos, n))}
-			c.assume(sx("<=", sx("+", opos, n), tposMax))
-			c.note("ghost output tape: otape(k) is the k-th byte accepted by the underlying writers, opos() the number accepted so far (fewer than 2^62)")
+			c.assumeOnPath(implies(isObs, fmt.Sprintf("(forall ((j Int)) (! (=> (and (<= %s j) (< j (+ %s %s))) (= (gotape j) (select %s (+ %s (- j %s))))) :pattern ((gotape j))))", opos, opos, n, arr, sOff(p.S), opos)))
+			c.assume(sx("<=", np, tposMax))
+			st.cells["$opos"] = Val{S: np}
+			// a bytes.Buffer grows by what it accepted
+			if isBuf, ref := c.isBytesBuffer(recv.S); isBuf != "false" {
+				bl := c.region(st, "$buflen")
+				st.cells["$buflen"] = Val{S: c.def("buflen", "(Array Int Int)", ite(isBuf, sx("store", bl, ref, sx("+", sx("select", bl, ref), n)), bl))}
+			}
+			c.note("ghost output tape: otape(k) is the k-th byte accepted by the observed writer obs() (an arbitrary but fixed io.Writer value), opos() the number accepted so far (fewer than 2^62); writers other than obs(), bytes.Buffer and strings.Builder may forward to it")
 		}
 		// ghost: a failed write is remembered (C13)
 		st.cells["$wfault"] = Val{S: c.def("wf", "Bool", or(c.region(st, "$wfault"), not(eq(errv, "I_nil"))))}
@@ -959,9 +976,15 @@ func init() {
 	writeThrough := func(x *Exec, st *State, fn *ssa.Function, args []Val, pos token.Pos, resT *types.Tuple) Val {
 		c := x.c
 		x.oblige(st, "nil", pos, not(eq(args[0].S, "I_nil")), "", nil)
+		pre := st.clone()
+		oposPre := c.region(st, "$opos")
 		c.havocAll(st) // the writer may be one of ours: its state changes
 		x.assumeWriterInv(st, args[0])
 		x.assumeKnownObjectInvs(st)
+		// output through a leaf writer that is not the observed one does not reach the tape
+		st.cells["$opos"] = Val{S: c.def("opos", "Int", ite(and(not(eq(args[0].S, c.obsConst())), c.leafWriter(args[0].S)), oposPre, c.region(st, "$opos")))}
+		// output through one of our writers: what every call of its Write preserves still holds
+		x.assumeStable(st, pre, args[0])
 		res := x.results(st, resT, "wr")
 		errv := res.S
 		if len(res.Tup) > 0 {
@@ -1055,13 +1078,65 @@ func init() {
 		"time.Parse", "(time.Time).Format", "(time.Time).IsZero", "strings.EqualFold", "unicode/utf8.RuneCountInString",
 		"(*regexp.Regexp).FindStringSubmatch", "(*regexp.Regexp).MatchString", "strings.Cut", "strings.Replace", "strings.ReplaceAll",
 		"strings.LastIndex", "strings.LastIndexByte", "strings.ContainsRune", "strings.IndexRune", "strings.Map",
-		"(*bytes.Buffer).WriteByte", "(*bytes.Buffer).Len", "(*bytes.Buffer).String", "(*bytes.Buffer).Write", "(*bytes.Buffer).WriteString",
-		"(*bytes.Buffer).Bytes", "(*bytes.Buffer).Reset", "(*strings.Builder).WriteByte", "(*strings.Builder).WriteString",
+		"(*bytes.Buffer).String", 
+		"(*strings.Builder).WriteByte", "(*strings.Builder).WriteString",
 		"(*strings.Builder).String", "(*strings.Builder).Len", "(*strings.Builder).WriteRune", "(*strings.Builder).Write",
 		"bufio.NewScanner", "(*bufio.Scanner).Scan", "(*bufio.Scanner).Text", "(*bufio.Scanner).Err", "(*bufio.Scanner).Bytes",
 		"(*bufio.Scanner).Buffer", "strconv.FormatInt", "strconv.FormatFloat", "strconv.Quote", "unicode.IsSpace", "unicode.IsDigit"} {
 		intrinsics[k] = pureFresh
 	}
+	// bytes.Buffer: the ghost array $buflen holds the number of unread bytes of every buffer
+	bufLenOf := func(x *Exec, st *State, ref string) string { return sx("select", x.c.region(st, "$buflen"), ref) }
+	bufGrow := func(x *Exec, st *State, ref, by string) {
+		bl := x.c.region(st, "$buflen")
+		st.cells["$buflen"] = Val{S: x.c.def("buflen", "(Array Int Int)", sx("store", bl, ref, sx("+", sx("select", bl, ref), by)))}
+	}
+	intrinsics["(*bytes.Buffer).Len"] = func(x *Exec, st *State, fn *ssa.Function, args []Val, pos token.Pos, resT *types.Tuple) Val {
+		c := x.c
+		x.nilCheck(st, args[0].S, pos)
+		l := bufLenOf(x, st, args[0].S)
+		c.assume(and(sx("<=", "0", l), sx("<=", l, maxObj)))
+		c.note("trusted: (*bytes.Buffer).Len returns the number of bytes written to the buffer since the last Reset (nothing reads from it here)")
+		intT := types.Typ[types.Int]
+		return Val{T: intT, S: c.fromIdx(intT, l)}
+	}
+	intrinsics["(*bytes.Buffer).Bytes"] = func(x *Exec, st *State, fn *ssa.Function, args []Val, pos token.Pos, resT *types.Tuple) Val {
+		c := x.c
+		x.nilCheck(st, args[0].S, pos)
+		c.havocRegion(st, "$alloc")
+		res := x.results(st, resT, "bytes")
+		l := bufLenOf(x, st, args[0].S)
+		c.assume(and(sx("<=", "0", l), sx("<=", l, maxObj), eq(sLen(res.S), l)))
+		c.note("trusted: (*bytes.Buffer).Bytes returns a slice of length Len()")
+		return res
+	}
+	intrinsics["(*bytes.Buffer).Reset"] = func(x *Exec, st *State, fn *ssa.Function, args []Val, pos token.Pos, resT *types.Tuple) Val {
+		x.nilCheck(st, args[0].S, pos)
+		bl := x.c.region(st, "$buflen")
+		st.cells["$buflen"] = Val{S: x.c.def("buflen", "(Array Int Int)", sx("store", bl, args[0].S, "0"))}
+		return Val{}
+	}
+	bufWrite := func(lenOf func(x *Exec, a Val) string) intrinsic {
+		return func(x *Exec, st *State, fn *ssa.Function, args []Val, pos token.Pos, resT *types.Tuple) Val {
+			c := x.c
+			x.nilCheck(st, args[0].S, pos)
+			n := lenOf(x, args[1])
+			bufGrow(x, st, args[0].S, n)
+			c.havocRegion(st, "$alloc")
+			res := x.results(st, resT, "bw")
+			// (n, nil) resp. nil: a bytes.Buffer accepts everything
+			if len(res.Tup) == 2 {
+				c.assume(and(eq(c.toIdx(res.Tup[0].T, res.Tup[0].S), n), eq(res.Tup[1].S, "I_nil")))
+			} else if res.S != "" {
+				c.assume(eq(res.S, "I_nil"))
+			}
+			c.note("trusted: writes to a bytes.Buffer accept all bytes and return a nil error")
+			return res
+		}
+	}
+	intrinsics["(*bytes.Buffer).Write"] = bufWrite(func(x *Exec, a Val) string { return sLen(a.S) })
+	intrinsics["(*bytes.Buffer).WriteString"] = bufWrite(func(x *Exec, a Val) string { return sx("gstr_len", a.S) })
+	intrinsics["(*bytes.Buffer).WriteByte"] = bufWrite(func(x *Exec, a Val) string { return "1" })
 }
 
 // heapPureApp: result = uf(H_uint8, args...) for functions that only read their []byte arguments.
@@ -1408,6 +1483,91 @@ func (x *Exec) assumeWriterInv(st *State, w Val) {
 			}
 		}
 	}
+}
+
+// assumeStable: external write-through code performed its output by calling
+// w.Write some number of times.  If w is one of our writer types, the stable
+// clauses of its Write method (two-state, reflexive and transitive: checked
+// where that method is verified) relate the state before to the state after.
+func (x *Exec) assumeStable(st, pre *State, w Val) {
+	if !strings.HasPrefix(w.S, "(I_P") {
+		return
+	}
+	parts := splitSexp(w.S[1 : len(w.S)-1])
+	if len(parts) != 2 {
+		return
+	}
+	for _, t := range x.p.ifaceTypes {
+		if ifaceCtorName(t) != parts[0] {
+			continue
+		}
+		pt, ok := t.(*types.Pointer)
+		if !ok {
+			return
+		}
+		nt, ok := pt.Elem().(*types.Named)
+		if !ok || nt.Obj().Pkg() == nil {
+			return
+		}
+		key := nt.Obj().Pkg().Name() + ".(*" + nt.Obj().Name() + ").Write"
+		fc := x.p.contracts[key]
+		fn := x.p.byName[key]
+		if fc == nil || fn == nil || len(fn.Params) == 0 {
+			return
+		}
+		vars := map[string]Val{fn.Params[0].Name(): {T: t, S: parts[1]}}
+		env := &Env{x: x, c: x.c, st: st, old: pre, vars: vars, oldVars: vars, fn: fn, pos: fn.Pos(), ghostOnly: true}
+		for _, en := range fc.Ensures {
+			if !en.Stable {
+				continue
+			}
+			fact := x.evalClause(env, en)
+			x.assumeG(st, fact)
+			x.c.note("trusted: an external writer function performs its output only through calls of " + key + "; its stable clauses (proved reflexive and transitive) then hold across the call")
+		}
+	}
+}
+
+// stableObligations: the stable clauses of a Write method, taken together as
+// one relation E(before, after), must be reflexive and transitive over
+// arbitrary states; only then may they be assumed across an unknown number
+// of calls (assumeStable).
+func (x *Exec) stableObligations(st *State) {
+	var cls []*Clause
+	seen := map[string]bool{}
+	var props []string
+	for _, en := range x.fc.Ensures {
+		if en.Stable {
+			cls = append(cls, en)
+			for _, t := range en.Tags {
+				if p := propOfTag(t); !seen[p] {
+					seen[p] = true
+					props = append(props, p)
+				}
+			}
+		}
+	}
+	if len(cls) == 0 {
+		return
+	}
+	mk := func(from *State) *State {
+		s := from.clone()
+		x.c.havocAll(s)
+		return s
+	}
+	s0 := mk(st)
+	s1 := mk(s0)
+	s2 := mk(s1)
+	rel := func(a, b *State) string {
+		env := &Env{x: x, c: x.c, st: b, old: a, vars: x.params, oldVars: x.params, free: x.freeVals, fn: x.fn, pos: x.fn.Pos(), ghostOnly: true}
+		var fs []string
+		for _, cl := range cls {
+			fs = append(fs, x.evalClause(env, cl))
+		}
+		return and(fs...)
+	}
+	x.oblige(st, "stable-refl", x.fn.Pos(), rel(s0, s0), "stable", props)
+	x.oblige(st, "stable-trans", x.fn.Pos(), implies(and(rel(s0, s1), rel(s1, s2)), rel(s0, s2)), "stable", props)
 }
 
 // assumeKnownObjectInvs: after an external writer function ran, the type
